@@ -148,7 +148,8 @@ static std::string do_parse(const Args &a) {
     std::string bytes = parse_bytes(a.get("in"));
     return guarded([&]() -> std::string {
         ST::string s = raw_string(bytes);
-        ST::conversion_result r1, r2;
+        // results that already carry the flags of an earlier successful parse: every to_*(result) call must overwrite them
+        ST::conversion_result r1, r2; (void)ST::string("1.5").to_double(r1); (void)ST::string("1.5").to_float(r2);
         double d = s.to_double(r1), dn = s.to_double();
         float f = s.to_float(r2), fn = s.to_float();
         char *p = new char[bytes.size() + 1]; memcpy(p, bytes.data(), bytes.size()); p[bytes.size()] = 0;
